@@ -32,7 +32,7 @@ theorem crossSetRun_spec (m n k : Nat) (draws : List (Nat × Nat)) (C : Adj) (do
     obtain ⟨i, j⟩ := d
     have hij := hd (i, j) (by simp)
     have hd' : ∀ d ∈ ds, d.1 < m ∧ d.2 < n := fun d h => hd d (by simp [h])
-    simp only [crossSetRun]
+    rw [crossSetRun_cons]
     split
     · split
       · exact ih C done hd'
@@ -66,16 +66,17 @@ theorem crossStep_cases (st st' : CrossSt) (d : Nat × Nat) (h : crossStep st d 
   unfold crossStep at h
   split at h
   · rename_i a b c e h1 h2
+    rw [List.getElem?_eq_some_iff] at h1 h2
+    obtain ⟨hp, h1⟩ := h1
+    obtain ⟨hq, h2⟩ := h2
+    rw [rewBreak_eq, rewWrites_eq, runMoves_eq st.links d.1 d.2 a b c e hp hq h1 h2] at h
     split at h
-    · left; simpa using h.symm
     · right
       rename_i hc
-      rw [List.getElem?_eq_some_iff] at h1 h2
-      obtain ⟨hp, h1⟩ := h1
-      obtain ⟨hq, h2⟩ := h2
-      simp only [Bool.or_eq_true, not_or, Bool.not_eq_true] at hc
+      simp only [Bool.not_eq_true', Bool.or_eq_false_iff] at hc
       refine ⟨a, b, c, e, hp, hq, h1, h2, hc.1, hc.2, ?_⟩
       simpa using h.symm
+    · left; simpa using h.symm
   · simp at h
 
 theorem swap_apply (C : Adj) (a b c e x y : Nat) (hac : a ≠ c) (_hbe : b ≠ e) :
@@ -179,11 +180,19 @@ theorem mem_overwriteWrites (C : Adj) (nodes1 nodes2 : List Nat) (w : Nat × Nat
     w ∈ overwriteWrites C nodes1 nodes2 ↔
       ∃ i j n1 n2, nodes1[i]? = some n1 ∧ nodes2[j]? = some n2 ∧
         (w = (n1, n2, C i j) ∨ w = (n2, n1, C i j)) := by
-  simp only [overwriteWrites, List.mem_flatMap, Prod.exists, List.mem_zipIdx_iff_getElem?,
-    List.mem_cons, List.not_mem_nil, or_false]
+  simp only [overwriteWrites, List.mem_flatMap, List.mem_range, (overwrite_reads_eq _ _).1,
+    (overwrite_reads_eq _ _).2, owWrites_eq]
   constructor
-  · rintro ⟨n1, i, h1, n2, j, h2, h⟩; exact ⟨i, j, n1, n2, h1, h2, h⟩
-  · rintro ⟨i, j, n1, n2, h1, h2, h⟩; exact ⟨n1, i, h1, n2, j, h2, h⟩
+  · rintro ⟨i, hi, j, hj, h⟩
+    rw [List.getElem?_eq_getElem hi, List.getElem?_eq_getElem hj] at h
+    simp only [List.mem_cons, List.not_mem_nil, or_false] at h
+    exact ⟨i, j, _, _, List.getElem?_eq_getElem hi, List.getElem?_eq_getElem hj, h⟩
+  · rintro ⟨i, j, n1, n2, h1, h2, h⟩
+    obtain ⟨hi, rfl⟩ := List.getElem?_eq_some_iff.1 h1
+    obtain ⟨hj, rfl⟩ := List.getElem?_eq_some_iff.1 h2
+    refine ⟨i, hi, j, hj, ?_⟩
+    rw [List.getElem?_eq_getElem hi, List.getElem?_eq_getElem hj]
+    simpa using h
 
 
 /-- no duplicates, in index form -/
